@@ -81,6 +81,7 @@ type State struct {
 	mergeDone bool
 	mergeDepth int
 	pf        *Portfolio
+	model     *CachedModel // satisfies the whole path condition (nil: unknown)
 	mergeRet  Value
 }
 
